@@ -228,7 +228,8 @@ def chunk_rule(ctx, fn, fc):
     if ok:
         gs = [(fn.term(c), p) for c, p in fn.guards(ws[0][0])]
         r = fn.term(calls[0])
-        ok = (mk_bin("<", L(0), r), True) in gs or (mk_bin("!=", r, L(0)), True) in gs
+        ok = (mk_bin("<", L(0), r), True) in gs or (mk_bin("!=", r, L(0)), True) in gs or (mk_bin("==", r, L(0)), False) in gs \
+            or (mk_bin("<=", L(1), r), True) in gs
     ctx.check("C07.C", "count:chunks_bump", ok, "chunks += 1 iff the pass consumed records",
               "`chunks` is not incremented exactly when count_chunk() returned > 0", fn.fn["sp"])
     brk = [n for n in fn.nodes if n.get("k") == "break"]
